@@ -4,8 +4,8 @@ from props import tokcommon as tc
 PROP = "C03"
 ENGINE = "tok"
 USES_TRANSLATOR = True
-LEAN_TARGETS = ["H5V.Props.C03", "H5V.Props.C03End", "H5V.Props.C03Tree"]
-AUDIT_IMPORTS = ["H5V.Props.C03End", "H5V.Props.C03Tree"]
+LEAN_TARGETS = ["H5V.Props.C03", "H5V.Props.C03End", "H5V.Props.C03Tree", "H5V.Props.C03Joint"]
+AUDIT_IMPORTS = ["H5V.Props.C03End", "H5V.Props.C03Joint"]
 THEOREMS = ["H5V.Props.C03." + t for t in [
     "C03_chunk_independence", "C03_step_mono", "C03_step_resume", "C03_step_invariant", "C03_bom_once",
     "C03_runsTo_deterministic", "runP_sound", "runP_complete", "good_initial",
@@ -14,7 +14,11 @@ THEOREMS = ["H5V.Props.C03." + t for t in [
     "C03_tb_sim_fields", "C03_tb_sim_equiv", "C03_tb_good_init", "C03_tb_good_preserved", "C03_tb_char_split",
     "C03_tb_sim_step", "C03_tb_sim_end", "C03_tb_chars_continue", "C03_tree_resplit_run", "C03_tree_resplit",
     "C03_tree_resplit_fragment", "C03_tree_resplit_end", "C03_tree_obs", "C03_tree_obs_fragment",
-    "C03_resplit_of_merge_eq", "C03_tree_merge_obs"]] + [
+    "C03_resplit_of_merge_eq", "C03_tree_merge_obs",
+    # the joint model - tokenizer with the tree builder as its sink (Props/C03Joint.lean): any chunk list then end() ends in
+    # the same joint state (whole tree-builder state, DOM, answers) as the concatenation in one piece
+    "start_fresh", "C03_joint_chunk_independence", "C03_joint_chunk_independence_fresh", "C03_joint_chunk_obs",
+    "C03_joint_is_replay", "C03_joint_tree_end_to_end"]] + [
     "H5V.Model.HtmlTok." + t for t in ["session_flatten", "runsTo_chunk", "step_sim", "transSet_dead", "transChar_enter"]]
 TRUSTED = [
     "Lean 4 kernel; axioms ⊆ {propext, Classical.choice, Quot.sound} (audited per run)",
@@ -25,11 +29,10 @@ TRUSTED = [
     "tools/extract.py regenerates the per-state small_char_set tables (Gen.TokSets) consulted by the model's side conditions",
 ]
 ASSUMPTIONS = [
-    "tree level: C03_tree_merge_obs proves that two token lists equal after merging adjacent character tokens give the "
-    "same DOM, quirks mode and pause answers in the tree-builder model (documents and fragments); the composition with the "
-    "tokenizer theorem through the joint driver (whose sink policy is the tree-builder state) is not a single theorem - "
-    "the chunked-vs-whole tree oracle on the real code decides it end to end",
-    "the sink answers only through TokenSinkResult (modelled as a pure policy of the token history)",
+    "C03_joint_chunk_independence is one-directional like C03_chunk_independence (a successful chunked parse implies the "
+    "same result in one piece); the model's tokenizer emits text one character per token - what the real tokenizer's "
+    "run boundaries can change is covered by C03_tree_merge_obs / C03_joint_tree_end_to_end (any re-splitting of character "
+    "tokens gives the same DOM, quirks mode and answers)",
     "tree-builder parse errors (sink.parse_error calls) legitimately depend on how character runs are cut; they are not "
     "part of the observation",
 ]
